@@ -250,3 +250,23 @@ def claim_cost(E, B, P, x, y, rec, tag='', claims=('A', 'B', 'C'), canary=True):
                 go = oracle_real(E, B.dr, N, G)
                 for i in range(N):
                     E.claim_eq(tag + 'C:y==r*(gamma_out-gamma_in)[%s%s][%d]' % (a, b, i), y[i * n * n + ia * n + ib], r[i] * (go[i] - x[i * n * n + ia * n + ib] / r[i]), abstract=inter)
+
+
+def havoc_fourier(E, P, name='C'):
+    """symbolic mode only: on the Domain instance inside this PRISM object replace the forward transform of a MatrixArray by
+    fresh symmetric symbols named by the canonical pair (the same symbols for every PRISM object of the path), i.e. C(k)
+    becomes arbitrary. Used where a claim must hold whatever C(k) is (matrix stage); sound for `holds`."""
+    if not E.sym:
+        return
+    dom = P.sys.domain
+    types = P.sys.types
+    N = dom.length
+
+    def to_fourier(marray):
+        for i, a in enumerate(types):
+            for j, b in enumerate(types):
+                if i <= j:
+                    col = E.arr(name + ckey(a, b), (N,), default=0.1)
+                    marray.data[:, i, j] = col; marray.data[:, j, i] = col
+        marray.space = Space.Fourier
+    dom.MatrixArray_to_fourier = to_fourier
